@@ -136,6 +136,18 @@ func VH_c01_server_twins() {
 		return vEstablished(s, c, fams)
 	}
 	c1, c2 := mk(2), mk(3)
+	// parallel = 1: the two clients are parallel sessions to ONE router (same BGP identifier,
+	// different neighbour addresses): a route learned over one session is never sent back to that
+	// router over the other
+	parallel := vParam("parallel") == 1
+	if parallel {
+		conf := c2.fsm.pConf.ReadCopy()
+		conf.State.RemoteRouterId = c1.fsm.pConf.ReadOnly().State.RemoteRouterId
+		c2.fsm.pConf.Update(&conf)
+		ib := *c2.peerInfo.Load()
+		ib.ID = c1.peerInfo.Load().ID
+		c2.peerInfo.Store(&ib)
+	}
 	t1 := vEstablished(s, vNeighbor(4, 65003, 65000, fams), fams)
 	t2 := vEstablished(s, vNeighbor(5, 65000, 65000, fams), fams)
 	peers := []*peer{c1, c2, t1, t2}
@@ -185,7 +197,11 @@ func VH_c01_server_twins() {
 			continue
 		}
 		want := best != nil && best.GetSource().Address != p.fsm.pConf.ReadOnly().State.NeighborAddress
-		vAssert(views[j].have == want, "a peer's view differs from the export of the current best path (stale or missing route) after the best path moved between sources with identical attributes")
+		if want && parallel && j < 2 {
+			want = false // the best path came from the same router over the other session
+			vReach("not_sent_back")
+		}
+		vAssert(views[j].have == want, "a peer's view differs from the export of the current best path (stale or missing route, or a route sent back to the router it came from) after the best path moved between sources with identical attributes")
 		if want && views[j].have {
 			vAssert(views[j].path.GetSource() == best.GetSource(), "the route a peer holds is not the current best path")
 			vAssert(slices.Equal(views[j].path.GetAsList()[len(views[j].path.GetAsList())-1:], best.GetAsList()), "the AS_PATH a peer holds does not end in the best path's")
